@@ -228,17 +228,23 @@ def gen_workspace(rng, base):
             files[f"main/{name}.lua"] = text + body
     prepend(user, "---@type boolean\nlocal xcy = Cy\nprint(xcy, Cy.from_a, Cy.from_b, Cy.nofield)\n---@param n integer\nlocal function fcy(n) return n end\nfcy(Cy)\n")
     # two (or three) library workspaces with interacting definitions (context order = library workspace id)
-    files["lib1/la.lua"] = ("LibTab = LibTab or {}\nLibTab.one = 1\n---@class (partial) LibC\n---@field p1 number\n"
-                            "---@type string\nLG = 's'\nreturn {}\n")
-    files["lib2/lb.lua"] = ("LibTab = LibTab or {}\nLibTab.two = 'x'\nfunction LibTab.m2() end\n---@class (partial) LibC\n---@field p2 string\n"
-                            "---@type integer\nLG = 1\nlocal la = require('la')\nreturn { la }\n")
+    # library roots are configured in shuffled order, so which root gets the lower workspace id varies
+    def libfile(i, ty, val, extra=""):
+        return (f"LibTab = LibTab or {{}}\nLibTab.m{i} = {val}\n---@class (partial) LibC\n---@field p{i} {ty}\n"
+                f"---@type {ty}\nLG = {val}\nfunction LF() return {val} end\n{extra}return {{ v{i} = {val} }}\n")
+    cross = ("local r1 = require('la')\nlocal r3 = require('lc')\nReqL1 = r1\nReqL3 = r3\n---@type LibC\nlocal lcc\n"
+             "FieldL1 = lcc.p1\nFieldL3 = lcc.p3\n")
+    files["lib1/la.lua"] = libfile(1, "string", "'s'")
+    files["lib2/lb.lua"] = libfile(2, "integer", "1", cross)      # lib2 uses what lib1 / lib3 declare
     libs = ["@BASE@/lib", "@BASE@/lib1", "@BASE@/lib2"]
-    if rng.chance(1, 2):
-        files["lib3/lc.lua"] = "LibTab = LibTab or {}\nLibTab.three = true\n---@type boolean\nLG = true\n"
+    if rng.chance(2, 3):
+        files["lib3/lc.lua"] = libfile(3, "boolean", "true")
         libs.append("@BASE@/lib3")
     user2 = rng.pick(names)
-    prepend(user2, "---@type boolean\nlocal xlt = LibTab\nprint(xlt, LibTab.one, LibTab.two, LibTab.none_)\n"
-                   "---@type boolean\nlocal xlg = LG\nprint(xlg)\n---@type LibC\nlocal lc\n---@type boolean\nlocal xp = lc.p1\nprint(xp, lc.p2, lc.p3)\n"
+    prepend(user2, "---@type boolean\nlocal xlt = LibTab\nprint(xlt, LibTab.m1, LibTab.m2, LibTab.none_)\n"
+                   "---@type table\nlocal xlg = LG\nprint(xlg)\n---@type LibC\nlocal lc\n---@type table\nlocal xp = lc.p1\nprint(xp, lc.p2, lc.p9)\n"
+                   "---@type table\nlocal xr1 = ReqL1\n---@type table\nlocal xr3 = ReqL3\n---@type table\nlocal xf1 = FieldL1\n---@type table\nlocal xf3 = FieldL3\n"
+                   "---@type table\nlocal xlf = LF()\nprint(xr1, xr3, xf1, xf3, xlf)\n"
                    "---@param n integer\nlocal function flt(n) return n end\nflt(LibTab)\nflt(LG)\n")
     files["main/.emmyrc.json"] = json.dumps({"workspace": {"library": rng.shuffle(libs)}})
     write_tree(base, files)
